@@ -80,6 +80,7 @@ Definition is_intlike_kind (k : sk) : bool := match k with KInt | KUInt | KIntLi
 Inductive kind :=
 | KLit | KVar | KEVal | KTern | KSeq
 | KSwz (idx : list N)
+| KMSwz (idx : list N)                     (* matrix swizzle: one number 4 * row + column per component *)
 | KOpq (what : string)
 | KSub
 | KSMem (sid : N) (mt : ty)
@@ -94,6 +95,9 @@ Definition e_ty (e : expr) : ty := match e with Node _ t _ _ => t end.
 Definition e_lv (e : expr) : bool := match e with Node _ _ lv _ => lv end.
 Definition e_kids (e : expr) : list expr := match e with Node _ _ _ ks => ks end.
 
+(* row_major / column_major (bits 2 and 3) describe a matrix; a row or a component of it does not carry them *)
+Definition unorient (b : N) : N := N.land b 51.
+
 Fixpoint nodupN (l : list N) : bool :=
   match l with [] => true | x :: r => negb (existsb (N.eqb x) r) && nodupN r end.
 
@@ -104,7 +108,7 @@ Fixpoint const_path (e : expr) : bool :=
   | Node k t _ kids =>
       is_const t ||
       match k, kids with
-      | KSMem _ _, [x] | KSwz _, [x] => const_path x
+      | KSMem _ _, [x] | KSwz _, [x] | KMSwz _, [x] => const_path x
       | KSub, x :: _ =>
           (* an element of a resource is as writable as its own type says (read-only resources give const elements);
              the handle being const does not matter *)
@@ -280,6 +284,23 @@ Definition check_node (k : kind) (t : ty) (lv : bool) (kids : list expr) : err :
           end
       | _ => bad "swizzle operand count"
       end
+  | KMSwz idx =>
+      match kids with
+      | [x] =>
+          let tx := e_ty x in
+          match idx with
+          | [] => bad "empty matrix swizzle"
+          | _ =>
+              let n := N.of_nat (List.length idx) in
+              match strip tx with
+              | TMatrix r c s =>
+                  both (req (forallb (fun i => (i / 4 <? r) && (i mod 4 <? c)) idx && (n <=? 4)) "matrix swizzle component outside the matrix")
+                       (req (ty_eqb t (remod (unorient (bits tx)) (if n =? 1 then s else TVector n s)) && Bool.eqb lv (e_lv x && nodupN idx)) "type of a matrix swizzle")
+              | _ => bad "matrix swizzle of something that is not a matrix"
+              end
+          end
+      | _ => bad "matrix swizzle operand count"
+      end
   | KOpq _ => ok
   | KSub =>
       match kids with
@@ -289,7 +310,7 @@ Definition check_node (k : kind) (t : ty) (lv : bool) (kids : list expr) : err :
                (match strip ta with
                 | TArray _ el => req (ty_eqb t el && lv) "type of an array element"
                 | TVector _ s => req (ty_eqb t (remod (bits ta) s) && lv) "type of a vector element"
-                | TMatrix _ c s => req (ty_eqb t (remod (bits ta) (TVector c s)) && lv) "type of a matrix row"
+                | TMatrix _ c s => req (ty_eqb t (remod (unorient (bits ta)) (TVector c s)) && lv) "type of a matrix row"
                 | TObj1 _ _ | TObj0 _ => req lv "an element of a resource is an lvalue"
                 | _ => bad "subscript of something that cannot be indexed"
                 end)
@@ -393,6 +414,12 @@ Definition derive_node (k : kind) (t : ty) (lv : bool) (kids : list (ty * bool))
   | KEVal, [] => Some (t, false)
   | KTern, [_; (ta, _); _] => Some (ta, false)
   | KSeq, _ => match rev kids with last :: _ => Some last | [] => None end
+  | KMSwz idx, [(tx, lx)] =>
+      let n := N.of_nat (List.length idx) in
+      match strip tx with
+      | TMatrix _ _ s => Some (remod (unorient (bits tx)) (if n =? 1 then s else TVector n s), lx && nodupN idx)
+      | _ => None
+      end
   | KSwz idx, [(tx, lx)] =>
       let n := N.of_nat (List.length idx) in
       match strip tx with
@@ -405,7 +432,7 @@ Definition derive_node (k : kind) (t : ty) (lv : bool) (kids : list (ty * bool))
       match strip ta with
       | TArray _ el => Some (el, true)
       | TVector _ s => Some (remod (bits ta) s, true)
-      | TMatrix _ c s => Some (remod (bits ta) (TVector c s), true)
+      | TMatrix _ c s => Some (remod (unorient (bits ta)) (TVector c s), true)
       | TObj1 _ _ | TObj0 _ => Some (t, true)
       | _ => None
       end
